@@ -43,7 +43,19 @@ pub trait VirtualNet {
 
 thread_local! {
     static NET: RefCell<Option<Box<dyn VirtualNet>>> = const { RefCell::new(None) };
+    static READ_TIMEOUT_IN_EFFECT: std::cell::Cell<Option<Option<std::time::Duration>>> = const { std::cell::Cell::new(None) };
 }
+
+/// The socket shims call this right before a routed receive with the read timeout the real socket object carries at that
+/// moment (what `apply_timeout` left on it): a virtual network can then tell a receive that would time out from one that
+/// would block for ever.
+pub(crate) fn note_read_timeout(t: std::io::Result<Option<std::time::Duration>>) {
+    READ_TIMEOUT_IN_EFFECT.with(|c| c.set(t.ok()))
+}
+
+/// Read timeout on the real socket object at the last routed receive of this thread: `Some(None)` = the socket has none
+/// (a receive blocks until data arrives), `None` = unknown.
+pub fn read_timeout_in_effect() -> Option<Option<std::time::Duration>> { READ_TIMEOUT_IN_EFFECT.with(|c| c.get()) }
 
 /// Install a virtual network on this thread, returning the previous one.
 pub fn install(net: Box<dyn VirtualNet>) -> Option<Box<dyn VirtualNet>> { NET.with(|n| n.borrow_mut().replace(net)) }
